@@ -31,3 +31,4 @@ func verifx_typeName(v any) string                  { panic("intrinsic") }
 func verifx_itoa(i int64) string                    { panic("intrinsic") }
 func verifx_nativeStr(fn, arg string) (string, bool) { panic("intrinsic") }
 func verifx_basic(a any) (kind int, s string, i int64) { panic("intrinsic") }
+func verifx_regexRef(glob string, s string) bool { panic("intrinsic") }
